@@ -356,7 +356,7 @@ class GriffeLoader:
 
         # First we expand wildcard imports and store the objects in a temporary `expanded` variable,
         # while also keeping track of the members representing wildcard import, to remove them later.
-        for member in obj.members.values():
+        for member in list(obj.members.values()):
             # Handle a wildcard.
             if member.is_alias and member.wildcard:  # type: ignore[union-attr]
                 package = member.wildcard.split(".", 1)[0]  # type: ignore[union-attr]
@@ -392,6 +392,11 @@ class GriffeLoader:
                         logger.debug("Could not expand wildcard import %s in %s: %s", member.name, obj.path, error)
                         continue
 
+                # Loading a package above expands its wildcards, which can lead back to this very object
+                # (wildcard imports going both ways): in that case this wildcard was expanded already.
+                if obj.members.get(member.name) is not member:
+                    continue
+
                 # Collect every imported object.
                 try:
                     expanded.extend(self._expand_wildcard(member))  # type: ignore[arg-type]
@@ -402,7 +407,8 @@ class GriffeLoader:
 
         # Then we remove the members representing wildcard imports.
         for name in to_remove:
-            obj.del_member(name)
+            if name in obj.members:
+                obj.del_member(name)
 
         # Finally we process the collected objects, in the order of the import statements:
         # importing the same module twice with a wildcard leaves a single placeholder member
